@@ -107,7 +107,50 @@ def check(prog, run):
             run.report(r, "%s:unproduced(%s)" % (D, c.name), "src/py_gql/schema/differ/__init__.py", "no differ ever yields %s: that kind of edit is never reported" % c.name)
     ds = prog.get_func(D, "diff_schema")
     run.looked_at(ds)
-    listed = {n.func.id for n in own_nodes(ds.node) if isinstance(n, ast.Call) and isinstance(n.func, ast.Name)}
+    # flow form: the calls whose results reach what diff_schema yields (through locals, list building and module helpers that
+    # are not differs themselves), not merely the calls that appear in its body
+    def _is_differ_name(nm):
+        return nm.startswith("_diff_") or nm.startswith("_find_")
+
+    def produced_by(f, depth=0):
+        """roots of the values a generator / iterator-returning function hands out"""
+        roots = []
+        for n in own_nodes(f.node):
+            if isinstance(n, ast.Return) and n.value is not None:
+                roots.append(n.value)
+            elif isinstance(n, ast.YieldFrom):
+                roots.append(n.value)
+            elif isinstance(n, (ast.For, ast.AsyncFor)) and any(isinstance(x, (ast.Yield, ast.YieldFrom)) for st in n.body for x in ast.walk(st)):
+                roots.append(n.iter)
+            elif isinstance(n, ast.Yield) and n.value is not None and not isinstance(n.value, ast.Name):
+                roots.append(n.value)
+        out = set()
+        seen = set()
+
+        def flow(e):
+            for x in ast.walk(e):
+                if isinstance(x, ast.Call) and isinstance(x.func, ast.Name):
+                    out.add(x.func.id)
+                    h = m.functions.get(x.func.id)
+                    if h is not None and not _is_differ_name(x.func.id) and depth < 3 and h is not f:
+                        out.update(produced_by(h, depth + 1))
+                elif isinstance(x, ast.Name) and isinstance(x.ctx, ast.Load) and x.id not in seen:
+                    seen.add(x.id)
+                    for a in own_nodes(f.node):
+                        if isinstance(a, ast.Assign) and any(isinstance(t, ast.Name) and t.id == x.id for t in a.targets):
+                            flow(a.value)
+                        elif isinstance(a, ast.AnnAssign) and isinstance(a.target, ast.Name) and a.target.id == x.id and a.value is not None:
+                            flow(a.value)
+                        elif isinstance(a, ast.AugAssign) and isinstance(a.target, ast.Name) and a.target.id == x.id:
+                            flow(a.value)
+                        elif isinstance(a, ast.Call) and isinstance(a.func, ast.Attribute) and a.func.attr in ("append", "extend", "insert") \
+                                and isinstance(a.func.value, ast.Name) and a.func.value.id == x.id:
+                            for arg in a.args:
+                                flow(arg)
+        for e in roots:
+            flow(e)
+        return out
+    listed = produced_by(ds)
     for name, f in m.functions.items():
         if (name.startswith("_diff_") or name.startswith("_find_")) and len(f.params) == 2 and f.params[0] in ("old", "old_schema"):
             r.instance("differ %s registered: %s" % (name, name in listed))
